@@ -71,6 +71,61 @@ func orderedItems(f *ast.File) []string {
 	return out
 }
 
+// every token.Pos field of every node (comment nodes aside), in traversal order
+type posItem struct {
+	key string
+	p   token.Pos
+}
+
+func posItems(f *ast.File) []posItem {
+	var out []posItem
+	ast.Inspect(f, func(n ast.Node) bool {
+		switch n.(type) {
+		case nil:
+			return false
+		case *ast.CommentGroup, *ast.Comment:
+			return false
+		}
+		v := reflect.ValueOf(n).Elem()
+		for i := 0; i < v.NumField(); i++ {
+			if v.Field(i).Type() == posType {
+				out = append(out, posItem{fmt.Sprintf("%T.%s", n, v.Type().Field(i).Name), token.Pos(v.Field(i).Int())})
+			}
+		}
+		return true
+	})
+	return out
+}
+
+// the positions the restorer assigned are in the same relative order as the positions of the same
+// fields in a fresh parse of the printed text (fields either side leaves unset are not compared)
+func posOrderMismatch(restored, fresh []posItem) string {
+	if len(restored) != len(fresh) {
+		return ""
+	}
+	var idx []int
+	for i := range restored {
+		if restored[i].key != fresh[i].key {
+			return ""
+		}
+		if restored[i].p.IsValid() && fresh[i].p.IsValid() {
+			idx = append(idx, i)
+		}
+	}
+	sort.SliceStable(idx, func(a, b int) bool {
+		if fresh[idx[a]].p != fresh[idx[b]].p {
+			return fresh[idx[a]].p < fresh[idx[b]].p
+		}
+		return restored[idx[a]].p < restored[idx[b]].p
+	})
+	for k := 1; k < len(idx); k++ {
+		if restored[idx[k]].p < restored[idx[k-1]].p {
+			return fmt.Sprintf("%s (field #%d) lies before %s (field #%d) in the restored ast (%d < %d) but after it in a fresh parse of the printed text", restored[idx[k]].key, idx[k], restored[idx[k-1]].key, idx[k-1], restored[idx[k]].p, restored[idx[k-1]].p)
+		}
+	}
+	return ""
+}
+
 func c12Check(in c12Input) (key, what string) {
 	rnd := rand.New(rand.NewSource(in.Seed))
 	fset := token.NewFileSet()
@@ -204,6 +259,9 @@ func c12Check(in c12Input) (key, what string) {
 		pf, err := parser.ParseFile(token.NewFileSet(), "", b1.Bytes(), parser.ParseComments)
 		if err != nil {
 			continue
+		}
+		if m := posOrderMismatch(posItems(af), posItems(pf)); m != "" {
+			return "c12-order", fmt.Sprintf("file %d: %s", fi, m)
 		}
 		a, b := orderedItems(af), orderedItems(pf)
 		if len(a) != len(b) {
